@@ -292,6 +292,29 @@ fn handle(vm: &mut Option<Vm>, line: &str) -> String {
             format!("OK {} {} {}", status, done, hex(&state::dump_vm(&mut v)))
         }
         #[cfg(feature = "hooks")]
+        "numfold" => {
+            // (proc x0 x1 ..) in a real VM where the xi are globals holding EXACTLY the given numbers
+            let proc = parts[1];
+            let nums: Vec<Number> = parts[2..].iter().map(|s| parse_num(s)).collect();
+            let mut v = Vm::new();
+            let mut call = format!("({}", proc);
+            for (i, n) in nums.iter().enumerate() {
+                let name = format!("verif-x{}", i);
+                v.eval_text(&format!("(define {} 0)", name)).unwrap();
+                let sym = v.verif_heap().get_sym_ref(&Cell::Symbol(name.clone())).unwrap().as_ptr().unwrap();
+                let slot = v.verif_globenv().get_binding(sym);
+                v.verif_globenv().put_slot(slot, marwood::vm::vcell::VCell::Number(n.clone()));
+                call.push(' ');
+                call.push_str(&name);
+            }
+            call.push(')');
+            match v.eval_text(&call) {
+                Ok((Cell::Number(n), _)) => format!("N:{}", show_num(&n)),
+                Ok((c, _)) => canon(&c),
+                Err(e) => format!("ERR {}", hex(&format!("{:?}", e))),
+            }
+        }
+        #[cfg(feature = "hooks")]
         "script" => {
             // <state> op op ... : run:<count> (0 = run to completion) | setip:<lambda>:<offset> | gc
             // answers one summary per op and the final state
